@@ -81,6 +81,8 @@ def inject_raw(prog_lines, hlines):
 # (Go's math package and glibc differ in the last ulp; cancellation can amplify that, hence the absolute floor);
 # all other programs only use + - * / and comparisons in the same order as the code, so they are compared exactly.
 
+EXACT_REL = 4e-13
+
 LIBM_CMDS = {'exp', 'log', 'sin', 'cos', 'tan', 'sinh', 'cosh', 'tanh', 'pow', 'std', 'var', 'stdalong', 'varalong',
              'sigmoid', 'softmax', 'bce', 'ce', 'mse'}
 
@@ -102,7 +104,9 @@ def _floats_close(a, b, exact=False):
     if math.isinf(a) or math.isinf(b):
         return a == b
     if exact:
-        return a == b
+        # libm-free programs: bit-equal on the unchanged tree; a purely relative slack of ~2000 ulps (no absolute floor,
+        # so tiny magnitudes are still resolved) keeps a harmless re-association of a sum from being reported
+        return a == b or abs(a - b) <= EXACT_REL * max(abs(a), abs(b))
     return abs(a - b) <= REL_TOL * max(1.0, abs(a), abs(b))
 
 def _cmp_flist(x, y, exact=False):
